@@ -17,7 +17,7 @@ RULE = ('Part order: Hypothesis-generated netlists with open input pins (incl. p
         'includes but does not pass through non-origin state elements, nothing outside the unrestricted backward reachability, readers before drivers. Part locs: port/state name tables from a '
         'naming model (index styles [i], _i_, _i, two dimensions, gaps, indices >= 10, shared prefixes, scalars) -> io_locs/s_locs(prefix) equal '
         'the table computed from the model (int, LSB..MSB list, nested lists sorted by base name, None). non-trivial: order: a node with an open pin '
-        'next to a connected one; the look-ups are repeated after the ports were re-ordered in place; locs: an index >= 10 or two dimensions; distinct by SHA-1 of the case.')
+        'next to a connected one; the look-ups are repeated after the ports were re-ordered in place; locs: an index >= 10 or two dimensions; distinct by SHA-1 of the case. In the order part latches without a used QN enter as NanGate DLH_X1/X2 cells and become primitives through resolve_tlib_cells().')
 ASSUMPTIONS = ['every bus has a fixed number of dimensions and no scalar shares its base name with a bus (otherwise the documented lookup is ambiguous)',
                'base names are letters only and end in a letter']
 
@@ -27,7 +27,7 @@ def order_cases(draw, tier):
     big = tier == 'thorough'
     nl = draw(S.netlists(max_g=40 if big else 14, max_pi=5, max_st=5, need_d=False, shift_regs=True))
     return dict(nl=nl, iso=draw(st.integers(0, 2)), dang=draw(st.integers(0, 2)),
-                origins=draw(st.lists(st.integers(0, 10000), min_size=1, max_size=4)))
+                origins=draw(st.lists(st.integers(0, 10000), min_size=1, max_size=4)), libst=draw(st.sampled_from([0, 0, 1, 2])))
 
 
 def is_state(n):
@@ -38,8 +38,24 @@ def is_state(n):
 def prop_order(case):
     from kyupy.circuit import Node, Line
     nl = case['nl']
+    libst = []
+    if case.get('libst'):
+        # latches enter the circuit as library cells (NanGate DLH_X1 / DLH_X2: input(D,G) output(Q), Q=LATCH(D,G)) and become primitives through
+        # resolve_tlib_cells() - the documented flow for parsed netlists; afterwards they are state elements like any other
+        used = set(nl['po']) | {x for g in nl['g'] for x in g['i'] if x is not None} | {s_[f] for s_ in nl['st'] for f in ('d', 'c') if s_.get(f) is not None}
+        nl = dict(nl, st=[dict(s_) for s_ in nl['st']])
+        for k, s_ in enumerate(nl['st']):
+            if s_['t'] == 'L' and f'n{k}' not in used:
+                s_['k'] = f'DLH_X{case["libst"]}'
+                libst.append(k)
     b = build(nl)
     c = b.c
+    if libst:
+        from kyupy.techlib import NANGATE
+        c.resolve_tlib_cells(NANGATE)
+        for k in libst:
+            if b.st[k].kind != 'LATCH' or not any(n is b.st[k] for n in c.nodes):
+                raise Violation(f'resolve_tlib_cells: latch cell {b.st[k].name} became {b.st[k].kind!r}')
     for i in range(case['iso']):
         Node(c, f'iso{i}', 'and')
     for i in range(case['dang']):            # node whose pins were connected once and disconnected again (all pins None)
@@ -173,6 +189,7 @@ def prop_order(case):
     if mixed: labels.append('open_pin_next_to_connected')
     if any(s[0] == 'n' for s in rm.readers(nl)) : labels.append('dff_qn')
     if case['iso'] or case['dang']: labels.append('isolated_nodes')
+    if libst: labels.append('latch_from_library_cell')
     if any(is_state(byid[i]) and i not in oid for i in want): labels.append('fanin_reaches_state_element')
     return Obs(mixed, labels, checks=5)
 
